@@ -193,6 +193,17 @@ CLAIMED.update({
         design="8/C20"),
 })
 
+CLAIMED.update({
+    "C15": dict(
+        text=("Theorems over a small-step model (install+notify; NewUpdater's read and build; Get's drain, read, build-and-swap) for every finite sequence of enabled events, i.e. every "
+              "interleaving of installs with those sub-steps: invariant - at rest a notification is pending or the last rebuild read the newest install (no_lost_update), a rebuild in "
+              "progress has read the newest install or a notification is pending again; a Get after the last install returns a value built from the newest bytes, clears Err, closes exactly "
+              "the replaced value; without a pending notification Get changes nothing and a notification is pending only after an install; a failed build keeps value and identity and sets "
+              "Err; closed identities are pairwise distinct and never include the current value. Tie: 1-4 updaters with counting closers, scripted builder failures, updaters created between a "
+              "poll's fetch and apply, compared per Get with the model."),
+        note=STORENOTE, technique="Lean 4 theorem (inductive invariant over all event sequences of a small-step model) + differential histories", design="8/C15"),
+})
+
 NOT_YET = {}
 
 def manifest():
